@@ -30,9 +30,14 @@ StageFails(t) ==
                       ELSE "malformed-delivery") }
   ELSE
     \* exactly what the specification's stage hands over at each Out step
-    If(Len(t.got) = Len(Outs(t)) /\ \A k \in 1..Len(t.got) : t.got[k] = Outs(t)[k].e, "C09:differs-from-merge-table")
+    \* (exactly what the specification's stage hands over: the property fixes the fold, the old-value chain and what
+    \*  cancels out, not the very table, so a difference is a note in the evidence -- model drift -- not a verdict)
+    If(Len(t.got) = Len(Outs(t)) /\ \A k \in 1..Len(t.got) : t.got[k] = Outs(t)[k].e, "NOTE:differs-from-merge-table")
     \cup If(Fold([i \in 1..NIds(t) |-> Absent], t.got) = t.truth, "C09:folded-view-differs")
     \cup If(t.kind = "val" \/ \A k \in 1..Len(t.got) : t.got[k].old = Before(t, k)[t.got[k].id], "C09:old-value-chain-broken")
+    \cup If(t.kind = "val" \/ \A k \in 1..Len(t.got) :
+              LET e == t.got[k]  had == Before(t, k)[e.id] # Absent IN
+              (e.type = "ADD" => ~had) /\ (e.type \in {"REMOVE", "UPDATE", "REPLACE"} => had), "C09:change-kind-inconsistent-with-view")
     \cup If(t.closed, "C09:stage-did-not-end-with-its-input")
 
 \* the values a Value subscriber receives are some of the values written, in the order written
